@@ -133,6 +133,37 @@ def run(sid, tier="quick", props=None):
     return results
 
 
+def run_scratch(sid, tier="quick", props=None):
+    """Same as run, but on a scratch copy of /repo (VERIF_REPO / VERIF_OUT), so that several can run at once."""
+    d = os.path.join(V, "seeded", sid)
+    meta = json.load(open(d + "/meta.json"))
+    props = props or [meta["breaks_property"]]
+    root = "/var/tmp/se/" + sid
+    shutil.rmtree(root, ignore_errors=True)
+    os.makedirs(root)
+    sh("rsync -a --exclude .git /repo/ %s/repo/" % root)
+    rc, o = sh("git apply %s/patch.diff" % d, cwd=root + "/repo")
+    if rc != 0:
+        print("patch does not apply:", o)
+        return None
+    results = {}
+    env = dict(ENV, VERIF_REPO=root + "/repo", VERIF_OUT=root + "/out")
+    try:
+        for p in props:
+            t0 = time.time()
+            pr = subprocess.run("./check %s --tier %s" % (p, tier), shell=True, cwd=V, env=env, stdout=subprocess.PIPE, stderr=subprocess.STDOUT, text=True, timeout=7200)
+            rc, o = pr.returncode, pr.stdout
+            keys = re.findall(r"^  key: (.*)$", o, re.M)
+            results[p] = dict(exit=rc, detected=(rc == 1), keys=keys[:6], wall_s=round(time.time() - t0, 1), tail=o[-300:] if rc not in (0, 1) else "", scratch_copy=True)
+    finally:
+        shutil.rmtree(root, ignore_errors=True)
+    meta.setdefault("detection", {})
+    for p, r in results.items():
+        meta["detection"]["%s:%s" % (p, tier)] = r
+    json.dump(meta, open(d + "/meta.json", "w"), indent=1)
+    return results
+
+
 if __name__ == "__main__":
     cmd = sys.argv[1]
     if cmd == "confirm":
@@ -141,6 +172,10 @@ if __name__ == "__main__":
         print(r["id"], "confirmed" if r.get("confirmed") else "NOT CONFIRMED", {k: r.get(k) for k in ("applies", "builds", "suite_passes", "demo_fails_with", "demo_passes_without")})
         if r.get("confirmed"):
             keep(sys.argv[2], sys.argv[3], r)
+    elif cmd == "runs":
+        tier = sys.argv[3] if len(sys.argv) > 3 else "quick"
+        res = run_scratch(sys.argv[2], tier, sys.argv[4:] or None)
+        print(sys.argv[2], json.dumps(res))
     elif cmd == "run":
         tier = sys.argv[3] if len(sys.argv) > 3 else "quick"
         res = run(sys.argv[2], tier, sys.argv[4:] or None)
